@@ -486,9 +486,85 @@ fn users(ctx: &Arc<Ctx>) {
 	ctx.extra("cache_users", json!({"valid_containers": n_valid, "containers_with_damaged_index_blocks": files.len() - n_valid, "lookup_sequences_per_container": (1..=depth).map(|d| probes.len().pow(d as u32)).sum::<usize>(), "coordinates": probes.len()}));
 }
 
+/// The cache with the key types the readers really use (ByteRange for PMTiles leaf directories, TileCoord3 for
+/// versatiles block indexes), over keys that differ in a single field: every history of length <= 4 of add / get /
+/// get_or_set; a lookup may only ever answer with a value that was stored under exactly that key (all fields).
+fn typed_keys(ctx: &Arc<Ctx>) {
+	use versatiles_core::types::{ByteRange, LimitedCache, TileCoord3};
+	fn run_all<K: Clone + std::hash::Hash + Eq + std::fmt::Debug + Send + Sync>(ctx: &Ctx, what: &str, keys: &[K], ident: &(dyn Fn(&K) -> String + Sync)) -> u64 {
+		// value = identity of the key it was stored under + a version
+		let n = keys.len();
+		let ops: Vec<(u8, usize)> = (0..n).flat_map(|k| [(0u8, k), (1, k), (2, k)]).collect();
+		let depth = 4usize;
+		let counter = std::sync::atomic::AtomicU64::new(0);
+		for cap in [1usize, 2, 8] {
+			let firsts: Vec<usize> = (0..ops.len()).collect();
+			crate::par::par_for(firsts.len(), |fi| {
+				let mut stack: Vec<Vec<usize>> = vec![vec![fi]];
+				let mut cnt = 0u64;
+				while let Some(h) = stack.pop() {
+					let mut cache: LimitedCache<K, (String, u32)> = LimitedCache::with_maximum_size(cap * (std::mem::size_of::<K>() + std::mem::size_of::<(String, u32)>()));
+					let mut stored: Vec<(String, (String, u32))> = vec![];
+					for (step, oi) in h.iter().enumerate() {
+						let (kind, ki) = ops[*oi];
+						let key = &keys[ki];
+						let id = ident(key);
+						let val = (id.clone(), step as u32);
+						let answer: Option<(String, u32)> = match kind {
+							0 => {
+								stored.push((id.clone(), val.clone()));
+								Some(cache.add(key.clone(), val))
+							}
+							1 => cache.get(key),
+							_ => {
+								let mut called = false;
+								let r = cache.get_or_set(key, || {
+									called = true;
+									Ok(val.clone())
+								});
+								if called {
+									stored.push((id.clone(), val.clone()));
+								}
+								r.ok()
+							}
+						};
+						if let Some(a) = answer {
+							if a.0 != id || !stored.iter().any(|s| s.0 == id && s.1 == a) {
+								ctx.violation(
+									&format!("{what}: the cache answers a key with a value stored under another key"),
+									&format!("capacity {cap}, history {:?}: step {step} on key {id} answers {a:?}", h.iter().map(|o| (["add", "get", "get_or_set"][ops[*o].0 as usize], ident(&keys[ops[*o].1]))).collect::<Vec<_>>()),
+									json!({"typed_keys": what, "capacity": cap, "history": h}),
+								);
+							}
+						}
+					}
+					cnt += 1;
+					if h.len() < depth {
+						for o in 0..ops.len() {
+							let mut h2 = h.clone();
+							h2.push(o);
+							stack.push(h2);
+						}
+					}
+				}
+				counter.fetch_add(cnt, std::sync::atomic::Ordering::Relaxed);
+			});
+		}
+		counter.load(std::sync::atomic::Ordering::Relaxed)
+	}
+	let ranges = vec![ByteRange::new(100, 10), ByteRange::new(100, 20), ByteRange::new(110, 10), ByteRange::new(0, 10), ByteRange::new(100, 0)];
+	let n1 = run_all(ctx, "ByteRange keys", &ranges, &|r: &ByteRange| format!("[{}+{}]", r.offset, r.length));
+	let coords = vec![TileCoord3 { x: 1, y: 0, z: 2 }, TileCoord3 { x: 5, y: 0, z: 2 }, TileCoord3 { x: 1, y: 4, z: 2 }, TileCoord3 { x: 1, y: 0, z: 3 }, TileCoord3 { x: 0, y: 0, z: 0 }, TileCoord3 { x: 1, y: 0, z: 0 }];
+	let n2 = run_all(ctx, "TileCoord3 keys", &coords, &|c: &TileCoord3| format!("({},{},{})", c.z, c.x, c.y));
+	ctx.evals(n1 + n2);
+	ctx.transition(n1 + n2);
+	ctx.outcome_n("histories over the readers' real key types (keys that differ in one field)", n1 + n2);
+}
+
 pub fn run(ctx: Arc<Ctx>) {
 	users(&ctx);
-	ctx.rule("in-tree users: every sequence of <= 2 (quick) / 3 (thorough) lookups over 9 coordinates on one opened versatiles / PMTiles reader (valid containers incl. one and two leaf levels; containers with damaged index blocks whose loaders fail) answers like a fresh reader");
+	typed_keys(&ctx);
+	ctx.rule("key types: every history of length <= 4 over the readers' real key types (ByteRange, TileCoord3) with keys that differ in one field - an answer must have been stored under exactly that key || in-tree users: every sequence of <= 2 (quick) / 3 (thorough) lookups over 9 coordinates on one opened versatiles / PMTiles reader (valid containers incl. one and two leaf levels; containers with damaged index blocks whose loaders fail) answers like a fresh reader");
 	ctx.rule(
 		"stateright BFS over the real LimitedCache<u64,(u64,u32)>; state = op history, dedup key = sorted (key,value,stamp rank) from verif_snapshot + the key the last operation used; recency for the 'just used' clause is kept by the harness from the operations issued, not read from the cache; plus every history of length <= 5..6 (thorough 5..7) at capacities 1..3 (thorough 1..5) without de-duplication; \
 		 alphabet get/add/get_or_set(ok|err) x keys x value versions; non-trivial = distinct canonical states in which the cache is full (next insertion evicts)",
